@@ -21,9 +21,10 @@ ABSENT_CTL = "￿-no-control"
 class Fixture:
     """rows: list of (sample tok, [(name tok, dose tok), ...], plate tok, value tok)"""
 
-    def __init__(self, rows, obs, ctl, fn, fd, zero=(), nan=(), pools=0, name=""):
+    def __init__(self, rows, obs, ctl, fn, fd, zero=(), nan=(), pools=0, name="", tiny=()):
         self.rows, self.obs, self.ctl, self.fn, self.fd = rows, list(obs), ctl, fn, fd
         self.zero, self.nan, self.name = list(zero), list(nan), name
+        self.tiny = list(tiny)        # value tokens stored as tiny NON-zero read-outs (a plate of them is an ordinary plate)
         self.arity = len(rows[0][1])
         self.sp, self.tp, self.pp, self.dp = SAMPLE_POOLS[pools % 4], TREAT_POOLS[pools % 4], PLATE_POOLS[pools % 4], DOSE_POOLS[pools % 4]
         assert all(p == sorted(p) for p in (self.sp, self.tp, self.pp)), "name pools must be ascending (token order = id order)"
@@ -32,7 +33,7 @@ class Fixture:
         self.vals = {}
         for r in rows:
             v = r[3]
-            self.vals[v] = 0.0 if v in self.zero else (float("nan") if v in self.nan else 0.05 + 0.0371 * v)
+            self.vals[v] = 0.0 if v in self.zero else (float("nan") if v in self.nan else (3e-10 * v if v in self.tiny else 0.05 + 0.0371 * v))
         self.bits2tok = {}
         for v, f in self.vals.items():
             self.bits2tok.setdefault(bits(f), v)
@@ -206,7 +207,10 @@ class World:
         elif op == "reveal":
             s = self.scr[e["h"]]
             ids = list(e["S"]) + ([e["S"][0]] if e.get("repeat") and e["S"] else [])
+            before = json.dumps(fx.project(s), sort_keys=True)
             st, r = outcome(R.reveal_plates, s, ids)
+            # reveal returns a new screen: the one it was given (a simulation may still hold it) is what it was
+            ev["arg_same"] = json.dumps(fx.project(s), sort_keys=True) == before
             if st == "ok":
                 self.scr[e["h"]] = r
                 ev["refused"] = False
@@ -216,7 +220,10 @@ class World:
             else:
                 self.raised = "reveal_plates raised: " + r
         elif op in ("mask", "unmask"):
+            before = json.dumps(fx.project(self.scr[e["h"]]), sort_keys=True)
+            old = self.scr[e["h"]]
             st, r = outcome(R.mask_screen if op == "mask" else R.unmask_screen, self.scr[e["h"]])
+            ev["arg_same"] = json.dumps(fx.project(old), sort_keys=True) == before
             if st != "ok":
                 self.raised = "%s_screen raised: %s" % (op, r)
             else:
@@ -289,7 +296,7 @@ class World:
         ev["after"] = self.after()
         for k in ("S", "P", "sel"):
             ev.setdefault(k, [])
-        for k, d in (("h", "train"), ("p", 1), ("q", 1), ("refused", False), ("a", 0), ("b", 0)):
+        for k, d in (("h", "train"), ("p", 1), ("q", 1), ("refused", False), ("a", 0), ("b", 0), ("arg_same", True)):
             ev.setdefault(k, d)
         ev.setdefault("meta", {})
         for k in ("sp0", "sp1", "sp2"):
@@ -369,7 +376,7 @@ def fixtures(rnd, n_random):
         # zeros and NaN behind the mask: reveal refusal paths; arity 1; no control name in the data
         Fixture([(0, [c(0, 2)], 0, 1), (1, [c(1, 2)], 1, 2), (1, [c(1, 3)], 1, 2), (0, [c(2, 2)], 2, 3), (2, [c(0, 1)], 2, 4),
                  (2, [c(0, 0)], 3, 5)],
-                obs=[0], ctl=9, fn=1, fd=4, zero=[2], nan=[3], pools=1, name="zero-nan-plates"),
+                obs=[0], ctl=9, fn=1, fd=4, zero=[2], nan=[3], pools=1, name="zero-nan-plates", tiny=[5]),
         # whole unobserved plates go to the hold-out (fraction 1): the training screen loses samples and conditions
         Fixture([(0, [c(0, 2), c(3, 2)], 0, 1), (1, [c(1, 2), c(0, 2)], 0, 2), (2, [c(2, 2), c(1, 3)], 1, 3), (3, [c(2, 3), c(3, 2)], 2, 4),
                  (0, [c(0, 3), c(1, 2)], 3, 5)],
